@@ -288,9 +288,24 @@ def run_sens(case, mon):
     so, se = sys.stdout, sys.stderr
     calls = []
     try:
-        tools.sensitivity_command = lambda *a, **k: calls.append(a)   # the simulations are not the subject here
+        def _stub(params_file, workload, output_dir, *a, **k):
+            # the simulations are not the subject here; like the real command the stub leaves a results file behind
+            calls.append((params_file, workload, output_dir))
+            os.makedirs(str(output_dir), exist_ok=True)
+            with open(os.path.join(str(output_dir), "results.csv"), "w") as f_:
+                f_.write("variant,mean\n")
+        tools.sensitivity_command = _stub
         texts = []
-        for i in range(case["n"]):
+        # the sampling is run twice into the SAME output directory, the second time from another start seed (a user
+        # who repeats the command): sample i must be the workload of the *current* start seed + i
+        passes = [case["start_seed"] + 11, case["start_seed"]]
+        for pass_no, start in enumerate(passes):
+          for i in range(case["n"]):
+            if pass_no == 0:
+                tools._sensitivity_task(tools.SensitivityTask(workload_index=i, params_file=pf, output_dir=d, seed=start + i, jitter_seed=None))
+                sys.stdout, sys.stderr = so, se
+                mon.count("sensitivity_samples_regenerated_in_a_used_directory")
+                continue
             task = tools.SensitivityTask(workload_index=i, params_file=pf, output_dir=d, seed=case["start_seed"] + i, jitter_seed=None)
             idx, ok = tools._sensitivity_task(task)
             sys.stdout, sys.stderr = so, se
